@@ -376,6 +376,7 @@ func (ex *Exec) verifyFunction(fn *ssa.Function) (rep *FuncReport) {
 	ex.inlined = map[string]bool{}
 	ex.loopSets = map[*ssa.BasicBlock]*WriteSet{}
 	ex.covers = map[string]bool{}
+	ex.clauseHit = map[string]bool{}
 	ex.coverN = map[string]int{}
 	ex.noDecreases = nil
 	ex.retCount = 0
@@ -391,6 +392,21 @@ func (ex *Exec) verifyFunction(fn *ssa.Function) (rep *FuncReport) {
 				ex.unsupported["spec: "+e.msg] = true
 			default:
 				panic(r)
+			}
+		}
+		// vacuity guard: every atreturn / callsite clause must have been in scope somewhere
+		if ex.con != nil && !ex.con.Trusted {
+			for _, e := range ex.con.AtReturn {
+				if !ex.clauseHit["atreturn#"+e.Label] {
+					ex.unsupported["vacuous: atreturn clause ["+e.Label+"] was never in scope at a return"] = true
+				}
+			}
+			for k, cls := range ex.con.Callsites {
+				for _, e := range cls {
+					if !ex.clauseHit["callsite@"+k+"#"+e.Label] {
+						ex.unsupported["vacuous: callsite clause ["+e.Label+"] on "+k+" never applied"] = true
+					}
+				}
 			}
 		}
 		rep.Obls = ex.obls
@@ -474,6 +490,9 @@ func pkgOf(fn *ssa.Function) *types.Package {
 }
 
 func (ex *Exec) atReturn(fr *Frame, c *Contract, st *State, res Value) {
+	if st.topFrame != nil {
+		fr = st.topFrame
+	}
 	if ex.recording != nil {
 		for n := range st.Dirty {
 			ex.recording.Names[n] = true
@@ -537,7 +556,10 @@ func (ex *Exec) atReturn(fr *Frame, c *Contract, st *State, res Value) {
 		lenv.old = ex.entry
 		ex.bindResults(lenv, c, fr.fn, res, resT)
 		for _, e := range c.AtReturn {
-			ex.oblige(st, "atreturn", e.Label, e.Props, lenv.boolTerm(e.Expr), fr.lastRet.Pos(), ex.fnKey)
+			if g := tryBool(lenv, e.Expr); g != nil {
+				ex.clauseHit["atreturn#"+e.Label] = true
+				ex.oblige(st, "atreturn", e.Label, e.Props, g, fr.lastRet.Pos(), ex.fnKey)
+			}
 		}
 	}
 	if ex.con != nil && (c.HasMod || len(c.Ensures) > 0) {
@@ -672,4 +694,18 @@ func (ex *Exec) instrOrder(fn *ssa.Function, ins ssa.Instruction) int {
 		instrOrders[fn] = m
 	}
 	return m[ins]
+}
+
+// tryBool evaluates a clause over locals; nil when a local it names is not in scope here.
+func tryBool(env *Env, x *SExpr) (g *Term) {
+	defer func() {
+		if r := recover(); r != nil {
+			if se, ok := r.(specErr); ok && strings.HasPrefix(se.msg, "unknown identifier") {
+				g = nil
+				return
+			}
+			panic(r)
+		}
+	}()
+	return env.boolTerm(x)
 }
